@@ -268,6 +268,11 @@ def getattr(I, st, v, name):
         if name == "is_integer" and not is_z3(v):
             yield st, simple("is_integer", lambda I, st: Fraction(v).denominator == 1)
             return
+    if type(v).__name__ == "IinfoVal":
+        if name in ("min", "max"):
+            yield st, _b.getattr(v, name)
+            return
+        raise Unsupported("iinfo attribute " + name)
     if type(v).__name__ == "DtypeVal":
         if name == "kind":
             yield st, v.kind
@@ -952,9 +957,16 @@ def to_float(I, st, v):
         yield st, Fraction(v)
     elif isinstance(v, str):
         try:
-            yield st, to_frac(float(v))
+            f = float(v)
         except ValueError as e:
             yield st, exc("ValueError", str(e))
+            return
+        if f != f:
+            yield st, Opaque("nan")  # float("nan"): the NaN literal (A1: no real value is NaN)
+        elif f in (float("inf"), float("-inf")):
+            raise Unsupported("float('inf')")
+        else:
+            yield st, to_frac(f)
     elif is_z3(v) and z3.is_int(v):
         yield st, z3.ToReal(v)
     elif is_z3(v):
@@ -1710,4 +1722,5 @@ def make_ext_modules(I):
     E["io"] = {"DEFAULT_BUFFER_SIZE": 8192}
     E["numpy"] = npmodel.make_module(I)
     E["numpy.linalg"] = npmodel.make_linalg(I)
+    E["numpy.char"] = npmodel.make_char(I)
     return E
